@@ -54,7 +54,20 @@ var formats = map[string]gozxing.BarcodeFormat{
 	"CODE_128": gozxing.BarcodeFormat_CODE_128, "ITF": gozxing.BarcodeFormat_ITF, "CODABAR": gozxing.BarcodeFormat_CODABAR,
 }
 
+// one writer object per symbology for the whole run, as applications keep them: a writer that remembers anything of an earlier
+// call (a margin, a size) shows in the next image
+var writers = map[string]gozxing.Writer{}
+
 func writerFor(f string) gozxing.Writer {
+	if w, ok := writers[f]; ok {
+		return w
+	}
+	w := newWriter(f)
+	writers[f] = w
+	return w
+}
+
+func newWriter(f string) gozxing.Writer {
 	switch f {
 	case "QR_CODE":
 		return qrcode.NewQRCodeWriter()
